@@ -80,6 +80,8 @@ type Case struct {
 	CancelDeadline bool    `json:"canceldeadline"` // the context ends by an expired deadline instead of cancel()
 	Slow     bool          `json:"slow"`     // storage latencies of 0.2-2 ms (contention on the limiter)
 	Fast     bool          `json:"fast"`     // latencies are yields only (no sleeps): the small-scope enumeration
+	Script   []int         `json:"script"`   // controlled schedule given as choices (index among the parked operations, ordered by label); beyond it: first
+	Enum     bool          `json:"enum"`     // schedule enumeration: choices beyond Script are 0, not PRNG
 	Sched    bool          `json:"sched"`    // run under testing/synctest with a PRNG-controlled scheduler
 	Thorough bool          `json:"thorough"` // generated with the thorough-tier size distribution
 }
@@ -156,10 +158,21 @@ func (r *rec) cancelAfterResolve() {
 	r.mu.Unlock()
 }
 
+// delayL is delay with a label naming the place (call site and node): under controlled schedules the
+// parked operations are ordered by label, so that a schedule (a list of choices) means the same thing in
+// every run of the case.
+func (r *rec) delayL(label string) {
+	if r.sched != nil {
+		r.sched.yieldL(label)
+		return
+	}
+	r.delay()
+}
+
 // delay varies the interleaving: nothing, yields, or a short sleep.
 func (r *rec) delay() {
 	if r.sched != nil {
-		r.sched.yield()
+		r.sched.yieldL("")
 		return
 	}
 	r.lmu.Lock()
@@ -216,16 +229,16 @@ func (s *srcW) Fetch(ctx context.Context, d ocispec.Descriptor) (io.ReadCloser, 
 	}
 	n := s.r.node(d)
 	s.r.ev(fmt.Sprintf("SB.%d", n), 1, 0)
-	s.r.delay()
+	s.r.delayL(fmt.Sprintf("01.%d", n))
 	rc, err := s.under.Fetch(ctx, d)
 	if err != nil {
 		s.r.ev(fmt.Sprintf("SX.%d", n), -1, 0) // not in the model's alphabet: fails the correspondence
 		return nil, err
 	}
-	s.r.delay()
+	s.r.delayL(fmt.Sprintf("02.%d", n))
 	s.r.ev(fmt.Sprintf("SE.%d", n), 0, 0)
 	return &closeRec{Reader: rc, c: rc, f: func() {
-		s.r.delay()
+		s.r.delayL(fmt.Sprintf("03.%d", n))
 		s.r.ev(fmt.Sprintf("SC.%d", n), -1, 0)
 	}}, nil
 }
@@ -308,9 +321,9 @@ func (d *dstW) Exists(ctx context.Context, t ocispec.Descriptor) (bool, error) {
 	n := d.r.node(t)
 	defer d.lockDigest(t)()
 	d.r.ev(fmt.Sprintf("XB.%d", n), 0, 1)
-	d.r.delay()
+	d.r.delayL(fmt.Sprintf("04.%d", n))
 	ok, err := d.under.Exists(ctx, t)
-	d.r.delay()
+	d.r.delayL(fmt.Sprintf("05.%d", n))
 	if err != nil {
 		d.r.ev(fmt.Sprintf("XX.%d", n), 0, -1)
 		return ok, err
@@ -332,7 +345,7 @@ func (d *dstW) push(ctx context.Context, t ocispec.Descriptor, rd io.Reader, ref
 	}
 	defer d.lockDigest(t)()
 	d.r.ev(fmt.Sprintf("PB.%d.%d", n, isRef), 0, 1)
-	d.r.delay()
+	d.r.delayL(fmt.Sprintf("06.%d", n))
 	// "x" = the content was already there (ErrAlreadyExists, or an idempotent success as registries
 	// answer); "k" = this push stored it
 	had, _ := d.under.Exists(ctx, t)
@@ -353,7 +366,7 @@ func (d *dstW) push(ctx context.Context, t ocispec.Descriptor, rd io.Reader, ref
 			err, res = terr, "e"
 		}
 	}
-	d.r.delay()
+	d.r.delayL(fmt.Sprintf("07.%d", n))
 	d.r.ev(fmt.Sprintf("PE.%d.%d.%s", n, isRef, res), 0, -1)
 	return err
 }
@@ -366,9 +379,9 @@ func (d *dstW) Tag(ctx context.Context, t ocispec.Descriptor, ref string) error 
 	ctx = context.WithoutCancel(ctx)
 	n := d.r.node(t)
 	d.r.ev(fmt.Sprintf("TB.%d", n), 0, 1)
-	d.r.delay()
+	d.r.delayL(fmt.Sprintf("08.%d", n))
 	err := d.under.Tag(ctx, t, ref)
-	d.r.delay()
+	d.r.delayL(fmt.Sprintf("09.%d", n))
 	if err != nil {
 		d.r.ev(fmt.Sprintf("TX.%d", n), 0, -1)
 		return err
@@ -389,7 +402,7 @@ func (d *dstW) mount(ctx context.Context, t ocispec.Descriptor, fromRepo string,
 	ctx = context.WithoutCancel(ctx)
 	n := d.r.node(t) // no digest lock here: getContent re-enters the wrappers; mount cases have no twins
 	d.r.ev(fmt.Sprintf("MB.%d", n), 0, 1)
-	d.r.delay()
+	d.r.delayL(fmt.Sprintf("10.%d", n))
 	if m, ok := d.under.(registry.Mounter); ok {
 		// a real Mounter (remote.Repository): the registry decides; observe what happened
 		called, cerr := false, error(nil)
@@ -399,7 +412,7 @@ func (d *dstW) mount(ctx context.Context, t ocispec.Descriptor, fromRepo string,
 			cerr = e
 			return rc, e
 		})
-		d.r.delay()
+		d.r.delayL(fmt.Sprintf("11.%d", n))
 		switch {
 		case !called && err == nil:
 			d.r.ev(fmt.Sprintf("ME.%d.m", n), 0, -1)
@@ -421,7 +434,7 @@ func (d *dstW) mount(ctx context.Context, t ocispec.Descriptor, fromRepo string,
 			d.r.ev(fmt.Sprintf("ME.%d.e", n), 0, -1)
 			return err
 		}
-		d.r.delay()
+		d.r.delayL(fmt.Sprintf("12.%d", n))
 		d.r.ev(fmt.Sprintf("ME.%d.m", n), 0, -1)
 		return nil
 	}
@@ -436,7 +449,7 @@ func (d *dstW) mount(ctx context.Context, t ocispec.Descriptor, fromRepo string,
 	}
 	err = d.under.Push(ctx, t, rc)
 	rc.Close()
-	d.r.delay()
+	d.r.delayL(fmt.Sprintf("13.%d", n))
 	if err != nil {
 		d.r.ev(fmt.Sprintf("ME.%d.e", n), 0, -1)
 		return err
@@ -483,6 +496,7 @@ type Result struct {
 	TagNode  int    // node the effective destination reference resolves to (-1 none, -2 unknown descriptor)
 	SrcMax   int
 	DstMax   int
+	Widths, Taken []int // controlled schedule: number of parked operations at each step, and the choice made
 	ExtraTag bool  // the source reference also resolves in the destination although a different destination reference was given
 	Pro      []int // nodes read from the source in the prologue
 	Keff     int
@@ -720,11 +734,11 @@ func Execute(c *Case) *Result {
 			n := r.node(d)
 			if c.FailCb == kind && c.FailNode == n {
 				r.ev(fmt.Sprintf("CF.%s.%d", kind, n), 0, 0)
-				r.delay()
+				r.delayL(fmt.Sprintf("14.%d", n))
 				return errInjected
 			}
 			r.ev(fmt.Sprintf("CB.%s.%d", kind, n), 0, 0)
-			r.delay()
+			r.delayL(fmt.Sprintf("15.%d", n))
 			return nil
 		}
 	}
@@ -749,7 +763,7 @@ func Execute(c *Case) *Result {
 				return nil, errInjected
 			}
 			r.ev(fmt.Sprintf("CB.mountfrom.%d", n), 0, 0)
-			r.delay()
+			r.delayL(fmt.Sprintf("16.%d", n))
 			if !c.Mount {
 				return nil, nil
 			}
@@ -836,7 +850,7 @@ func Execute(c *Case) *Result {
 		}
 	}
 	if c.Sched && T != nil { // (the plain binary has no testing.T: free-running instead)
-		r.sched = &sched{rng: common.NewRand(c.Seed ^ 0x5ced)}
+		r.sched = &sched{rng: common.NewRand(c.Seed ^ 0x5ced), script: c.Script, enum: c.Enum}
 		if !runScheduled(r.sched, runCopy) {
 			res.Hang = true
 			r.mu.Lock()
@@ -867,6 +881,9 @@ func Execute(c *Case) *Result {
 	}
 	res.Toks = r.toks
 	res.Pro = r.pro
+	if r.sched != nil {
+		res.Widths, res.Taken = r.sched.widths, r.sched.taken
+	}
 	res.SrcMax, res.DstMax = r.srcMax, r.dstMax
 
 	// observe the destination (underlying store, not the wrapper)
